@@ -1316,7 +1316,7 @@ func run(ctx *Ctx) *Result {
 	// loaded machine. The number of runs actually made is reported.
 	type job struct{ idx, pass, runs int }
 	var jobList []job
-	const chunk = 12
+	chunk := ctx.N(8, 12)
 	for i, c := range cases {
 		jobList = append(jobList, job{i, 0, min(c.Runs, chunk)})
 	}
@@ -1327,7 +1327,7 @@ func run(ctx *Ctx) *Result {
 			}
 		}
 	}
-	deadline := time.Now().Add(time.Duration(ctx.N(32, 600)) * time.Second)
+	deadline := time.Now().Add(time.Duration(ctx.N(22, 420)) * time.Second)
 	var skipped atomic.Int64
 	var wg sync.WaitGroup
 	jobs := make(chan job)
@@ -1359,7 +1359,7 @@ func run(ctx *Ctx) *Result {
 	}
 	if n := skipped.Load(); n > 0 {
 		res.CountN("runs-skipped-time-box", int(n))
-		res.Notes = append(res.Notes, fmt.Sprintf("time box closed: %d of the extra runs on small inputs were not made (every input got its first %d runs)", n, chunk))
+		res.Notes = append(res.Notes, fmt.Sprintf("time box closed: %d of the extra runs on small inputs were not made (every input got its first %d runs, session inputs 6)", n, chunk))
 	}
 
 	drv := ctx.StartNadrv("c16")
